@@ -30,6 +30,7 @@ META = {
         "already past); an injected fault removes only its own occurrence. distinct_nontrivial = distinct event logs at the horizon."
         " Three to five one-shots of one source, all with a positive delay after the same poll."
         " Schedules carrying both a cron expression and a time, in a list source and in the label source."
+        " A schedule whose cron expression cannot be parsed, listed before valid ones in a list source and in the label source (it is skipped, the others are unaffected). A loop under test that keeps the event loop busy without ever sleeping is reported as the violation event-loop-never-sleeps."
     ),
     "assumptions": [
         "timers fire exactly at their deadline (never early) and the wall clock equals the loop clock; local zone is UTC",
@@ -72,6 +73,8 @@ class C15World(SchedWorld):
             return None
         return items
 
+    livelock_is_violation = True  # the loop must sleep to the next minute boundary between polls
+
     def check_terminal(self) -> None:
         start = self.sc.get("start_us", 0)
         end = start + self.horizon_us
@@ -109,7 +112,7 @@ class C15World(SchedWorld):
                     want = 0
                     if tag in listed_cron:
                         when = BASE + dt.timedelta(microseconds=tp)
-                        want = 1 if cronref.matches(listed_cron[tag]["cron"], when) else 0
+                        want = 0 if listed_cron[tag].get("invalid") else (1 if cronref.matches(listed_cron[tag]["cron"], when) else 0)
                     self.judged_cron += 1
                     if len(here) != want:
                         self.flag(
@@ -263,6 +266,12 @@ def scenarios(tier: str) -> List[Dict[str, Any]]:
         for kind in ("list", "label"):
             out.append({"start_us": start, "horizon_min": hz, "latency_us": 0, "level": 0,
                         "sources": [{"kind": kind, "schedules": both + [alpha[4]]}]})
+        # a schedule whose cron expression cannot be parsed, listed before valid ones: it is skipped, the others
+        # of the same source are not affected
+        bad = {"tag": "bad", "cron": "every minute please", "invalid": True}
+        for kind in ("list", "label"):
+            out.append({"start_us": start, "horizon_min": hz, "latency_us": 0, "level": 0,
+                        "sources": [{"kind": kind, "schedules": [bad, alpha[0], alpha[4]]}, {"kind": "list", "schedules": [alpha[1], bad]}]})
         # real LabelScheduleSource
         for st in [(alpha[0], alpha[4]), (alpha[8],), (alpha[3], alpha[6], alpha[2]), (alpha[9], alpha[10])]:
             for lat in (0, 400_000):
